@@ -56,4 +56,14 @@ TEXT = {
   "level_text": "Protocol level: random / mutated / truncated / length-boundary / inner-length / spliced / duplicated / bare-announcement byte strings are fed to each protocol's Unpack under read limits 64..65536 with the allocation around the call measured and, for size-prefixed protocols, the bytes consumed after an over-limit announcement counted; HTTP gets text-level announcements (Content-Length, endless lines, header floods). Every proper prefix of six fixed valid frames per protocol is enumerated (complete). Session level: a live serving or calling session (with pending calls) of a real peer receives generated hostile chunks then EOF; the close notification must fire, pending calls complete exactly once, Close returns, the index forgets the session and a control session on the same peer works before, during and after; a process crash is reported from the journalled case.",
   "level_note": "TotalAlloc is a coarse, over-approximating monitor with deliberately wide slack. Thrift: element lengths inside a frame are decoded by the third-party thrift library, which allocates what is announced (listed known finding); the allocation oracle is suspended for the thrift protocols while that finding is listed, and inner-length corruption classes are steered away and counted.",
  },
+ "C07": {
+  "technique": "model-based stateful property testing (rapid state machine) with an invariant after every action",
+  "level_text": "A rapid state machine drives one serving and one dialling peer through generated histories of connect (accept-hook accept/reject, hook SetID fresh/colliding), SetID (fresh/same/colliding), call, close (local/remote/cut), local Close racing a disconnect, repeated Close, call and push on closed sessions; after every action the session index (GetSession/CountSession/RangeSession), Health, close notifications and the per-session disconnect-hook count are compared with a reference model at a quiescent point, and again after the final peer close. A second property holds the accept hook while a raw remote pipelines traffic and checks that nothing is handled or indexed before the hook returns OK (and never after a reject).",
+  "level_note": "Interleavings of Close vs disconnect are sampled (two goroutines, generated head start), not enumerated; no in-framework gate points are used.",
+ },
+ "C08": {
+  "technique": "property-based schedules over gated handlers, judged on a logical-clock history and wire capture (rapid)",
+  "level_text": "Calls in both directions are parked inside gated handlers (all entered), then Close (session or peer, either end) is invoked, optional late calls are issued, handlers are released in a generated permutation with an optional cut; the oracle reads the logical-clock log and the captured wire: Close blocked while entered handlers run / own calls are unanswered, genuine replies (never 102) for entered handlers unless the connection was cut first, Close returns after handler exits and after their REPLY frames are on the wire.",
+  "level_note": "The placement of Close relative to handler entry is controlled (always after entry); 'request arrived but handler not entered' is only exercised by the late calls and judged for exactly-once completion.",
+ },
 }
